@@ -386,7 +386,7 @@ func (r *Run) Finish() int {
 			} else {
 				nViol++
 				// write replay file
-				dir := filepath.Join(r.Verif, "replays", r.ID)
+				dir := filepath.Join(r.outDir(), "replays", r.ID)
 				os.MkdirAll(dir, 0o755)
 				doc := map[string]any{"property": r.ID, "site": d.viol.Site, "what": d.viol.What, "replay": d.viol.Replay, "outcome": d.viol.Outcome}
 				b, _ := json.MarshalIndent(doc, "", " ")
@@ -476,9 +476,9 @@ func (r *Run) Finish() int {
 		"wall_s":      wall,
 		"violations":  nViol,
 	}
-	os.MkdirAll(filepath.Join(r.Verif, "evidence"), 0o755)
+	os.MkdirAll(filepath.Join(r.outDir(), "evidence"), 0o755)
 	b, _ := json.MarshalIndent(ev, "", " ")
-	os.WriteFile(filepath.Join(r.Verif, "evidence", r.ID+".json"), b, 0o644)
+	os.WriteFile(filepath.Join(r.outDir(), "evidence", r.ID+".json"), b, 0o644)
 
 	for _, l := range knownLines {
 		fmt.Println(l)
@@ -541,3 +541,12 @@ func (r *Run) addViolationWithReplay(site, what string, replay map[string]any, o
 }
 
 func (r *Run) overTime() bool { return time.Since(r.t0) > r.budget() }
+
+// outDir is where evidence/ and replays/ are written: VERIF_OUT when set (runs against seeded
+// changes), the verif root otherwise.
+func (r *Run) outDir() string {
+	if o := os.Getenv("VERIF_OUT"); o != "" {
+		return o
+	}
+	return r.Verif
+}
